@@ -1,6 +1,7 @@
 import BoltonsVerif.Common
 import BoltonsVerif.C04.Model
 import BoltonsVerif.C04.Closed
+import BoltonsVerif.C04.View
 /-
 C04 line protocol.  Two kinds of line:
 
@@ -10,11 +11,15 @@ C04 line protocol.  Two kinds of line:
       events  n | o<excl><samedir>:<mode> | c<mode> | w<size> | f | s | x | xf | R | L | U | T | W<size> | D | ?
               (one token per recorded call; a write writes <size> bytes of value 1)
   S <umask> <dest> <part> <events...>      the same for a SYSCALL-level trace (strace view; `proc=-`)
-    output:  safe=<0|1> exec=<ok|fail@k> proc=<letters> power=<ok|bad@k> final=<letter> part=<0|1>
+    output:  safe=<0|1> exec=<ok|fail@k> proc=<letters> power=<ok|bad@k> final=<letter> part=<0|1> dirs=<letters> held=<letter>
       proc   one letter per prefix of the trace (k = 0..N): what a reader of the destination finds
              after a process death there: a absent, o old content, n new content (= all bytes
              written by the whole trace), b both (old = new), X anything else
       power  whether after every prefix every power-loss outcome reads old (as at the start) or new
+      dirs   one letter per prefix: what a listing of the directory shows of the part file's name:
+             - absent, p present, l present and a hard link to the destination's inode (the link window)
+      held   what a reader that opened the destination BEFORE the save reads through its descriptor at the
+             end: - no destination at the start, o the old content, X anything else
 
   T <flags> <perms> <umask> <dest> <part> <raises> <sizes>      the model's own trace (diagnostic)
       flags four digits 0/1: overwrite, overwrite_part, rm_part_on_exc, text_mode; perms `-` or decimal
@@ -131,7 +136,11 @@ def accept (umask : Nat) (dest : Option Inode) (part : Bool) (evs : List Ev) (wi
   let badAt := (sts.zipIdx).find? fun p => !(powerOk p.1)
   let power := match badAt with | none => "ok" | some p => s!"bad@{p.2}"
   let final := match sts.getLast? with | some fs => fs | none => fs0
-  s!"safe={if SafeTrace evs then 1 else 0} exec={if feasible then "ok" else s!"fail@{sts.length - 1}"} proc={proc} power={power} final={classify old new final.readDest} part={if final.dir.part.isSome then 1 else 0}"
+  let dirs := if withProc then String.ofList (sts.map fun fs => if fs.sameInode && fs.hasPart then 'l' else if fs.hasPart then 'p' else '-') else "-"
+  let held := if !withProc then "-" else match fs0.dir.dest with
+    | none => "-"
+    | some i => if (final.inodes[i]?).map Inode.cache = (fs0.inodes[i]?).map Inode.cache then "o" else "X"
+  s!"safe={if SafeTrace evs then 1 else 0} exec={if feasible then "ok" else s!"fail@{sts.length - 1}"} proc={proc} power={power} final={classify old new final.readDest} part={if final.dir.part.isSome then 1 else 0} dirs={dirs} held={held}"
 
 def handle (line : String) : String :=
   match words line with
